@@ -69,6 +69,9 @@ func draw(t *rapid.T) *pbt.Case {
 	}
 	c := &pbt.Case{}
 	g := gen.Default(gen.Regular()).Boost(2, gen.BarrierKinds...).Boost(2, "tags", "secondary", "mark", "join", "safedetails", "stack").Boost(4, "telemetry").Boost(2, "domain", "ukeymarker").Boost(3, "hint", "detail", "hintf0")
+	// (structural extremes more often than elsewhere, and the ones that
+	// meet buffers and limits: many keys, very long strings, deep chains)
+	g.XRate, g.XClasses = 25, []string{"keys", "keys", "long", "long", "deep", "wide"}
 	c.Spec = g.Draw(t, rapid.IntRange(1, maxB).Draw(t, "budget"))
 	gen.SprinkleRepeats(t, c.Spec)
 	if rapid.IntRange(0, 2).Draw(t, "repeated") == 0 {
@@ -88,7 +91,9 @@ func draw(t *rapid.T) *pbt.Case {
 		}
 		c.Spec = w
 	}
-	c.SetInt("decoded", rapid.IntRange(0, 1).Draw(t, "decoded"))
+	// 0 local, 1 received by a process that knows the types, 2 received by
+	// a process that knows none of them (every layer an opaque value)
+	c.SetInt("decoded", rapid.IntRange(0, 2).Draw(t, "decoded"))
 	return c
 }
 
@@ -105,6 +110,7 @@ func drawHistory(t *rapid.T) *pbt.Case {
 		maxB, maxN = 10, 8
 	}
 	g := gen.Default(gen.Regular()).Boost(3, "domain", "ukeymarker", "stack", "tags", "telemetry", "mark")
+	g.XRate, g.XClasses = 25, []string{"keys", "keys", "long", "long", "deep", "wide"}
 	c := &pbt.Case{}
 	c.Spec = g.Draw(t, rapid.IntRange(1, maxB).Draw(t, "budget"))
 	if rapid.Bool().Draw(t, "valuelayer") {
@@ -134,15 +140,20 @@ func drawHistory(t *rapid.T) *pbt.Case {
 	if rapid.IntRange(0, 3).Draw(t, "repeated") == 0 {
 		c.Spec = gen.WithRepeatedAnnotations(t, g, c.Spec)
 	}
-	c.SetInt("decoded", rapid.IntRange(0, 1).Draw(t, "decoded"))
+	c.SetInt("decoded", rapid.IntRange(0, 2).Draw(t, "decoded"))
 	return c
 }
 
 func checkHistory(c *pbt.Case, r *pbt.R) {
 	mk := func(s *gen.Spec) error {
 		e := gen.Build(s)
-		if c.Int("decoded") == 1 {
+		switch c.Int("decoded") {
+		case 1:
 			return wire.Decode(wire.Encode(e))
+		case 2:
+			enc := wire.Unmarshal(wire.Encode(e))
+			wire.Rename(&enc, func(string) bool { return true })
+			return errors.DecodeError(wire.Ctx, enc)
 		}
 		return e
 	}
@@ -197,11 +208,15 @@ func check(c *pbt.Case, r *pbt.R) {
 	// result of executing alone.
 	var es [2]error
 	var bytes0 []byte
-	if c.Int("decoded") == 1 {
+	if c.Int("decoded") >= 1 {
 		bytes0 = wire.Encode(gen.Build(c.Spec))
 	}
 	for i := range es {
-		if bytes0 != nil {
+		if c.Int("decoded") == 2 {
+			enc := wire.Unmarshal(bytes0)
+			wire.Rename(&enc, func(string) bool { return true })
+			es[i] = errors.DecodeError(wire.Ctx, enc)
+		} else if bytes0 != nil {
 			es[i] = wire.Decode(bytes0)
 		} else {
 			es[i] = gen.Build(c.Spec)
